@@ -491,6 +491,73 @@ func extractC20() *lean {
 			}
 		}
 	}
+	// inventory of the IAM client's exported methods: does the method validate its endpoint argument with
+	// ParsePublicURL / IssuerIdToWellKnown UNCONDITIONALLY (a top-level statement before any branch other than `if err != nil`),
+	// only conditionally (nested), or does it hand the argument to an inner method (named)?
+	var inventory []string
+	for _, f := range []struct{ file, recv, pfx string }{{"auth/client/iam/client.go", "HTTPClient", "http."}, {"auth/client/iam/openid4vp.go", "OpenID4VPClient", "vp."}} {
+		_, af := parseFile(f.file)
+		for _, d := range af.Decls {
+			fd, ok := d.(*ast.FuncDecl)
+			if !ok || fd.Body == nil || fd.Recv == nil || len(fd.Recv.List) != 1 || !ast.IsExported(fd.Name.Name) {
+				continue
+			}
+			if rt := strings.TrimPrefix(exprString(fd.Recv.List[0].Type), "*"); rt != f.recv {
+				continue
+			}
+			isCheck := func(n ast.Node) bool {
+				found := false
+				ast.Inspect(n, func(m ast.Node) bool {
+					if c, ok := m.(*ast.CallExpr); ok {
+						if fn := c20Cond(c.Fun); fn == "core.ParsePublicURL" || fn == "oauth.IssuerIdToWellKnown" {
+							found = true
+						}
+					}
+					return true
+				})
+				return found
+			}
+			verdict := "none"
+			if isCheck(fd.Body) {
+				verdict = "conditional"
+			}
+			for _, st := range fd.Body.List {
+				if is, ok := st.(*ast.IfStmt); ok {
+					if c20Cond(is.Cond) == "err != nil" && is.Init == nil {
+						continue
+					}
+					break
+				}
+				switch st.(type) {
+				case *ast.ForStmt, *ast.RangeStmt, *ast.SwitchStmt, *ast.TypeSwitchStmt, *ast.SelectStmt, *ast.BlockStmt:
+				default:
+					if isCheck(st) {
+						verdict = "unconditional"
+					}
+					continue
+				}
+				break
+			}
+			if verdict == "none" {
+				var inner []string
+				ast.Inspect(fd.Body, func(m ast.Node) bool {
+					if c, ok := m.(*ast.CallExpr); ok {
+						if sel, ok := c.Fun.(*ast.SelectorExpr); ok {
+							if x := c20Cond(sel.X); x == "iamClient" || x == "c.httpClient" {
+								inner = append(inner, sel.Sel.Name)
+							}
+						}
+					}
+					return true
+				})
+				if len(inner) > 0 {
+					verdict = "delegates:" + strings.Join(inner, "+")
+				}
+			}
+			inventory = append(inventory, f.pfx+fd.Name.Name+":"+verdict)
+		}
+	}
+	l.def("iamMethodInventory", "List String", leanStrList(inventory), inventory)
 	l.def("iamRequestBuilders", "List String", leanStrList(iamAll), iamAll)
 	l.def("iamURLCheckers", "List String", leanStrList(iamChecked), iamChecked)
 	// inventory over the whole repository (non-test, non-generated): raw net/http clients that bypass http/client,
